@@ -449,11 +449,9 @@ pub fn analyze(case: &Case) -> Analysis {
         if irregular {
             unspec!(R_SIGNED_HEADERS, "signed-header list has empty, duplicate, upper-case or padded entries");
         }
+        // C11: the canonical form has the names in sorted order, whatever order the list was sent in
         let mut sorted = list.clone();
         sorted.sort();
-        if sorted != list {
-            a.late_unspecified.push("signed-header list not sorted".into());
-        }
         list = sorted;
         let has = |n: &str| list.iter().any(|h| h == n);
         let mut missing: Vec<String> = Vec::new();
